@@ -761,3 +761,101 @@ Proof.
     unfold exch_ok; cbn; rewrite !upd_same; cbn; repeat split; intros; try discriminate;
       inversion H; subst; auto; rewrite upd_same; auto.
 Qed.
+
+Theorem step_inv s l s' : Inv s -> step s l = Some s' -> Inv s'.
+Proof.
+  intros I. unfold step. rewrite (inv_nopanic _ I).
+  destruct l.
+  - apply pres_start; auto.
+  - apply pres_cancel; auto.
+  - apply pres_tclose; auto.
+  - apply pres_getidle; auto.
+  - apply pres_getnone; auto.
+  - apply pres_dialok; auto.
+  - apply pres_dialfail; auto.
+  - apply pres_dialdeliver; auto.
+  - apply pres_dialabandon; auto.
+  - apply pres_ctxdone; auto.
+  - apply pres_recv; auto.
+  - apply pres_write; auto.
+  - apply pres_writeerr; auto.
+  - apply pres_read; auto.
+  - apply pres_readerr; auto.
+  - apply pres_sendres; auto.
+  - apply pres_rel1; auto.
+  - apply pres_rel2; auto.
+  - apply pres_timer; auto.
+  - apply pres_srvwhole; auto.
+  - apply pres_srvhalf1; auto.
+  - apply pres_srvhalf2; auto.
+  - apply pres_srvabort; auto.
+Qed.
+
+Lemma steps_inv ls : forall s s', Inv s -> steps s ls = Some s' -> Inv s'.
+Proof.
+  induction ls as [|l r IH]; cbn; intros s s' I H.
+  - inversion H; subst; auto.
+  - destruct (step s l) as [s1|] eqn:E; try discriminate. apply (IH s1); auto. apply (step_inv s l); auto.
+Qed.
+
+Theorem reachable_inv s : reachable s -> Inv s.
+Proof. intros [ls H]. apply (steps_inv ls init); auto. apply inv_init. Qed.
+
+Lemma steps_app a : forall s b, steps s (a ++ b) = match steps s a with Some s1 => steps s1 b | None => None end.
+Proof.
+  induction a as [|l r IH]; cbn; intros; auto. destruct (step s l); auto.
+Qed.
+
+Lemma reachable_step s l s' : reachable s -> step s l = Some s' -> reachable s'.
+Proof.
+  intros [ls H] E. exists (ls ++ [l]). rewrite steps_app, H. cbn. rewrite E. reflexivity.
+Qed.
+
+(* ---- the big-step runs are schedules of the small-step system ---- *)
+Lemma do_labels_steps ls : forall s tr s' tr',
+  do_labels s ls tr = Some (s', tr') -> exists m, tr' = rev m ++ tr /\ steps s m = Some s'.
+Proof.
+  induction ls as [|l r IH]; cbn; intros s tr s' tr' H.
+  - inversion H; subst. exists []. auto.
+  - destruct (step s l) as [s1|] eqn:E; try discriminate.
+    destruct (IH _ _ _ _ H) as (m & -> & Hm). exists (l :: m). cbn. rewrite E. split; auto.
+    rewrite <- app_assoc. reflexivity.
+Qed.
+
+Lemma settle_steps fuel : forall s tr s' tr',
+  settle fuel s tr = Some (s', tr') -> exists m, tr' = rev m ++ tr /\ steps s m = Some s'.
+Proof.
+  induction fuel as [|f IH]; cbn; intros s tr s' tr' H.
+  - destruct (next_label s); try discriminate. inversion H; subst. exists []. auto.
+  - destruct (next_label s) as [l|]; [|inversion H; subst; exists []; auto].
+    destruct (step s l) as [s1|] eqn:E; try discriminate.
+    destruct (IH _ _ _ _ H) as (m & -> & Hm). exists (l :: m). cbn. rewrite E. split; auto.
+    rewrite <- app_assoc. reflexivity.
+Qed.
+
+Lemma run_events_steps evs : forall s tr s' tr',
+  run_events (s, tr) evs = Some (s', tr') -> exists m, tr' = rev m ++ tr /\ steps s m = Some s'.
+Proof.
+  induction evs as [|ev r IH]; cbn; intros s tr s' tr' H.
+  - inversion H; subst. exists []. auto.
+  - destruct (do_labels s (env_labels s ev) tr) as [[s1 tr1]|] eqn:E1; try discriminate.
+    destruct (settle settle_fuel s1 tr1) as [[s2 tr2]|] eqn:E2; try discriminate.
+    destruct (do_labels_steps _ _ _ _ _ E1) as (m1 & -> & H1).
+    destruct (settle_steps _ _ _ _ _ E2) as (m2 & -> & H2).
+    destruct (IH _ _ _ _ H) as (m3 & -> & H3).
+    exists (m1 ++ m2 ++ m3). rewrite !steps_app, H1, H2, H3. split; auto.
+    rewrite !rev_app_distr, <- !app_assoc. reflexivity.
+Qed.
+
+Theorem big_refines_small evs s tr : run_trace evs = Some (s, tr) -> steps init tr = Some s.
+Proof.
+  unfold run_trace. destruct (run_events (init, []) evs) as [[s1 tr1]|] eqn:E; try discriminate.
+  intros H; inversion H; subst. destruct (run_events_steps _ _ _ _ _ E) as (m & -> & Hm).
+  rewrite app_nil_r, rev_involutive. auto.
+Qed.
+
+Theorem run_history_reachable evs s : run_history evs = Some s -> reachable s.
+Proof.
+  unfold run_history. destruct (run_trace evs) as [[s1 tr]|] eqn:E; try discriminate.
+  intros H; inversion H; subst. exists tr. apply (big_refines_small evs); auto.
+Qed.
